@@ -17,7 +17,12 @@
 (*       answer something else;                                            *)
 (*     - float-valued keys are not compared across a text document that    *)
 (*       the format library itself cannot read back exactly (exempt; the   *)
-(*       statement is about lossless formats).                             *)
+(*       statement is about lossless formats);                             *)
+(*     - the memory layout of a matrix parameter (cls = "l") is recorded   *)
+(*       but never compared: the statement demands identical values and    *)
+(*       bit-identical behaviour, not identical layout (deserialisation    *)
+(*       restores row-major order whatever the original order was -- which *)
+(*       is exactly why behaviour has to be observed on such values).      *)
 (*   Trace_Persist evaluates these predicates, unchanged, on observations  *)
 (*   recorded from the real linfa types.                                   *)
 (*                                                                         *)
@@ -40,6 +45,7 @@ EXTENDS Naturals, Sequences, FiniteSets, TLC
 
 \* x: observation of a restored value, y: observation of its original under the same key
 ObsOk(x, y) ==
+  \/ x.cls = "l"                                   \* memory layout of a matrix: reported, not a clause of the statement
   \/ x.cls = "f" /\ x.exempt                       \* floats behind a document the format cannot read back exactly
   \/ x.cls = "b" /\ ~x.armed /\ x.st = "guard"     \* documented refusal while the tokenizer function is missing
   \/ x.st = y.st /\ x.d = y.d                      \* otherwise: the same answer, bit for bit
